@@ -6,10 +6,13 @@ package cmd
 import (
 	"encoding/json"
 	"fmt"
+	"io/fs"
 	"math"
 	"os"
 	"path"
+	"path/filepath"
 	"runtime/debug"
+	"strings"
 	"sync"
 	"time"
 
@@ -113,6 +116,10 @@ func dedupLoop(configArgs map[string]string, w *fsnotify.Watcher, completedChann
 			}
 		}
 
+		// Model files in subdirectories are part of a package, and a watch is not recursive.
+		for _, dir := range append([]string{"."}, dirsToWatch...) {
+			watchSubdirectories(w, dir)
+		}
 	}
 
 	regenerate()
@@ -142,6 +149,25 @@ func dedupLoop(configArgs map[string]string, w *fsnotify.Watcher, completedChann
 			timer.Reset(waitFor)
 		}
 	}
+}
+
+// Watches the directories below the given package directory. A subdirectory that cannot
+// be watched (it may have been removed in the meantime) is skipped.
+func watchSubdirectories(w *fsnotify.Watcher, packageDir string) {
+	_ = filepath.WalkDir(packageDir, func(path string, entry fs.DirEntry, err error) error {
+		if err != nil || !entry.IsDir() {
+			return nil
+		}
+		if path != packageDir && strings.HasPrefix(entry.Name(), ".") {
+			return filepath.SkipDir
+		}
+		if path != packageDir {
+			if err := w.Add(path); err != nil {
+				log.Debug().Err(err).Msgf("not watching %s", path)
+			}
+		}
+		return nil
+	})
 }
 
 // Returns the directories to watch after parsing all package imports, or nil on error
